@@ -50,3 +50,8 @@ Theorem C06_reject_built_obj_unchanged :
   forall (F : Type) (lvalidate lto_python : F -> pyval -> res pyval) (ldefault : F -> N -> pyval) (lcallable lflag : F -> bool) (vrun : N -> list (str * pyval) -> bool) (ps : list pstep) (r : objroute) (k : str) (sdyn : bool) (svs : list N) (sfs : list (str * node F)) (dops : list (list pstep * cop)) (w : world) (pre : str) (c : cfg) (dyn : bool) (vs : list N) (fs : list (str * node F)) (w' : world) (c' : cfg) (oc1 : oc), at_path_x F lvalidate lto_python ldefault lcallable lflag vrun ps w pre c dyn vs fs (XObj r k sdyn svs sfs dops) = (w', c', oc1) -> oc1 <> OOk -> c' = c.
 Proof. exact reject_built_obj_unchanged. Qed.
 Print Assumptions C06_reject_built_obj_unchanged.
+
+Theorem C06_reject_kept_obj_unchanged :
+  forall (F : Type) (lvalidate lto_python : F -> pyval -> res pyval) (ldefault : F -> N -> pyval) (lcallable lflag : F -> bool) (vrun : N -> list (str * pyval) -> bool) (ps : list pstep) (x : xop F) (w : world) (last : kept F) (pre : str) (c : cfg) (dyn : bool) (vs : list N) (fs : list (str * node F)) (w' : world) (last' : kept F) (c' : cfg) (oc1 : oc), match x with | XOp _ => False | _ => True end -> at_path_xs F lvalidate lto_python ldefault lcallable lflag vrun ps w last pre c dyn vs fs x = (w', last', c', oc1) -> oc1 <> OOk -> c' = c.
+Proof. exact reject_kept_obj_unchanged. Qed.
+Print Assumptions C06_reject_kept_obj_unchanged.
